@@ -43,10 +43,21 @@ def gen(rng, style="mixed"):
     for j in range(rng.choice([0, 1, 2, 3])):
         k = sc.tags["ncli"]; sc.tags["ncli"] = k + 1
         pos = rng.randint(0, len(S))
-        S[pos:pos] = [("connect",), ("wait", k), ("send", k, rng.choice([b"nodes\r\n", b"status\r\n", b"device\r\n", b"help\r\n"])), ("wait", k),
+        S[pos:pos] = [("connect", k), ("wait", k), ("send", k, rng.choice([b"nodes\r\n", b"status\r\n", b"device\r\n", b"help\r\n"])), ("wait", k),
                       rng.choice([("send", k, b"quit\r\n"), ("raw", ["EOF c%d" % k]), ("raw", ["RST c%d" % k])])]
+    # clients that send a device command and hang up at once (`echo on t1 | nc`): the command must still run to completion and
+    # the client record must be reaped afterwards
+    nodes = sc.cfg.all_nodes()
+    for j in range(rng.choice([0, 1, 1, 2])):
+        k = sc.tags["ncli"]; sc.tags["ncli"] = k + 1
+        pos = rng.randint(0, len(S))
+        line = ("%s %s\r\n" % (rng.choice(["on", "off", "status", "cycle"]), rng.choice(nodes))).encode()
+        S[pos:pos] = [("connect", k), ("wait", k), ("send", k, line), ("raw", ["EOF c%d" % k]), ("sleep", rng.choice([1000, 2500000, 6000000]))]
     if rng.random() < 0.3:
         S.insert(rng.randint(0, len(S)), ("raw", ["SIG TERM"])); sc.tags["sigterm"] = True
+    pmcheck.renumber(sc)
+    if rng.random() < 0.5:
+        sc.env["PMSIM_STUBBORN"] = "1"      # coprocess helpers that ignore SIGTERM and exit only on EOF of their socket
     return sc
 
 
